@@ -6,6 +6,7 @@ origin trees (value provenance), constant decoding (ints, strs, byte strings, `&
 `format_args!` templates) and a compact pretty printer used in reports.
 """
 import json
+import os
 import re
 import struct
 from collections import defaultdict
@@ -703,6 +704,55 @@ class Body:
         return "\n".join(out)
 
 
+def fn_table(j):
+    """{def path: [kind, return type, argument types..]} of the user functions of one exported crate (no closures, no tests)"""
+    out = {}
+    for b in j["bodies"]:
+        if b.get("promoted") is not None or b.get("kind") not in ("Fn", "AssocFn"):
+            continue
+        p_ = b["path"]
+        if "::tests::" in p_ or p_.endswith("::tests") or "{closure" in p_:
+            continue
+        n = b.get("arg_count", 0)
+        out[p_] = [b["kind"]] + [strip_mods(l["ty"]) for l in b["locals"][: n + 1]]
+    return out
+
+
+def _rename_map(j, ref):
+    """{current def path: reference def path} for functions that were only renamed (see tools/gen_anchor_table.py)"""
+    cur = fn_table(j)
+    missing = [p_ for p_ in ref if p_ not in cur]
+    extra = [p_ for p_ in cur if p_ not in ref]
+    if not missing or not extra:
+        return {}
+    parent = lambda p_: p_.rsplit("::", 1)[0] if "::" in p_ else ""  # noqa: E731
+    cands = {}
+    for m in missing:
+        cs = [e for e in extra if parent(e) == parent(m) and cur[e] == ref[m]]
+        if len(cs) == 1:
+            cands.setdefault(cs[0], []).append(m)
+    return {e: ms[0] for e, ms in cands.items() if len(ms) == 1}
+
+
+def _load_facts(paths, table):
+    """[(json, renames)] for the fact files; a function renamed in one crate is mapped back in all of them (the bin crate calls into the lib)"""
+    raws = [open(p_).read() for p_ in paths]
+    js = [json.loads(r_) for r_ in raws]
+    ren = {}
+    if table:
+        for j in js:
+            ren.update(_rename_map(j, table.get(j["crate"], {})))
+    if ren:
+        import re as _re
+        out = []
+        for raw in raws:
+            for new, old in sorted(ren.items(), key=lambda kv: -len(kv[0])):
+                raw = _re.sub(r"(?<![A-Za-z0-9_])" + _re.escape(new) + r"(?![A-Za-z0-9_])", lambda m_, o_=old: o_, raw)
+            out.append(json.loads(raw))
+        js = out
+    return js, ren
+
+
 class Program:
     def __init__(self, fact_files):
         self.crates = {}
@@ -710,9 +760,18 @@ class Program:
         self.adts = {}
         self.impls = []
         self.consts = {}
+        self.renamed = {}
         self.stats = {"bodies": 0, "blocks": 0, "calls": 0, "unresolved": 0}
-        for f in fact_files:
-            j = json.load(open(f))
+        table = None
+        tp = os.path.join(os.path.dirname(os.path.abspath(__file__)), "anchor_table.json")
+        if os.path.exists(tp) and os.environ.get("VERIF_NO_RENAME_MAP") != "1":
+            try:
+                table = json.load(open(tp))
+            except ValueError:
+                table = None
+        loaded, ren = _load_facts(list(fact_files), table)
+        self.renamed.update(ren)
+        for j in loaded:
             label = j["crate"]
             self.crates[label] = j
             for k, kk in (("bodies", "n_bodies"), ("blocks", "n_blocks"), ("calls", "n_calls"), ("unresolved", "n_unresolved")):
